@@ -74,6 +74,7 @@ func solveOne(file string, secs int, useSolvers []string) solveResult {
 	}
 	best := solveResult{status: "unknown"}
 	var outs []string
+	malformed := ""
 	for i := 0; i < n; i++ {
 		r := <-ch
 		first := strings.TrimSpace(strings.SplitN(strings.TrimSpace(r.out), "\n", 2)[0])
@@ -86,11 +87,19 @@ func solveOne(file string, secs int, useSolvers []string) solveResult {
 		if strings.HasPrefix(first, "(error") && best.output == "" {
 			best.output = r.name + ": " + strings.TrimSpace(r.out)
 		}
+		if strings.HasPrefix(first, "(error") && strings.HasPrefix(r.name, "z3") && !strings.Contains(first, "timeout") && !strings.Contains(first, "canceled") {
+			// z3 rejects the text itself: the generator produced a malformed term (an engine defect, not a property)
+			malformed = r.name + ": " + first
+		}
 	}
 	if best.status == "unknown" {
 		best.ms = time.Since(start).Milliseconds()
 		if best.output == "" {
 			best.output = strings.Join(outs, "; ")
+		}
+		if malformed != "" {
+			best.output = "MALFORMED-VC " + malformed + "\n" + best.output
+			fmt.Fprintln(os.Stderr, "govc: MALFORMED-VC", filepath.Base(file), malformed)
 		}
 	}
 	return best
